@@ -145,6 +145,8 @@ Inductive res :=
 Inductive op :=
 | NewObj (w : nat) (k : oid)     (* RawObjectWriter + Write *)
 | CloseObj (w : nat)
+| FailObj                        (* RawObjectWriter whose WriteHeader fails (negative size, invalid type):
+                                    NewObject ran, the writer is abandoned — never closed *)
 | SetObj (k : oid)               (* SetEncodedObject *)
 | NewPack (w : nat) (p : pid)    (* PackfileWriter + Write of a whole pack (p = 0: nothing written) *)
 | ClosePack (w : nat)
@@ -189,6 +191,7 @@ Definition step (c : cfg) (s : st) (o : op) : st * res :=
     | None => (s, RErr EBadSlot)
     | Some k => let s1 := set_ow s (slot_del w (ow s)) in (obj_saved c s1 k, ROk)
     end
+  | FailObj => (clean_olist s, RErr EOther)
   | SetObj k => (obj_saved c (clean_olist s) k, ROk)
   | NewPack w p =>
     match slot_get w (pw s) with
